@@ -1,3 +1,5 @@
 SPECIFICATION Spec
 INVARIANT Laws
 CHECK_DEADLOCK FALSE
+CONSTANTS LangCmpExt = TRUE
+  SameLitExt = TRUE
